@@ -209,6 +209,53 @@ def run(F, rep, tier):
             rep.viol('R4.2', fn + '|variant', '%s builds %s, expected Func::%s' % (fn, vs, variant), b.loc(0))
 
     # ---------------- R4.3 / R4.6
+    # nested PartialAppLast: outer.run pushes the outer argument first, inner.run the inner one after it, so f finally sees
+    # (.., outer.x, inner.x): the outer wrapper must hold the earlier of the two supplied arguments
+    def _slot(b_, op):
+        seen_ = set()
+        cur = op
+        for _ in range(12):
+            if cur[0] not in ('c', 'm'):
+                return None
+            pl = cur[1]
+            fs = [p_ for p_ in pl[1:] if isinstance(p_, str) and re.match(r'f\d+', p_)]
+            if fs:
+                return (pl[0], int(re.match(r'f(\d+)', fs[-1]).group(1)))
+            L = pl[0]
+            if L in seen_:
+                return None
+            seen_.add(L)
+            ds = b_.defs().get(L, [])
+            if len(ds) != 1:
+                return None
+            (_bb, _j, kind, st) = ds[0]
+            if kind == 'a' and st[2][0] == 'use':
+                cur = st[2][1]
+            elif kind != 'a' and st[2] and (st[1].get('r') or st[1].get('d') or '').rsplit('::', 1)[-1] in ('new', 'clone', 'from', 'into'):
+                cur = st[2][0]
+            else:
+                return None
+        return None
+    nn = 0
+    for b in F.all_bodies():
+        aggs = [(bb, s_) for bb, s_ in b.aggregates(b.reach) if s_[2][2] == 'core::Func' and s_[2][4] == 'PartialAppLast' and len(s_[2][5]) == 2]
+        if len(aggs) < 2:
+            continue
+        for bb, s_ in aggs:
+            if not any(r_[0] == 'agg' and r_[-1] == 'PartialAppLast' for r_ in b.roots(s_[2][5][0])):
+                continue
+            inner = [t_ for _b2, t_ in aggs if t_ is not s_ and not any(r_[0] == 'agg' and r_[-1] == 'PartialAppLast' for r_ in b.roots(t_[2][5][0]))]
+            if len(inner) != 1:
+                continue
+            so, si = _slot(b, s_[2][5][1]), _slot(b, inner[0][2][5][1])
+            if so is None or si is None or so[0] != si[0]:
+                continue
+            nn += 1
+            if so[1] < si[1]:
+                rep.ok('R4.2', '%s: nested PartialAppLast' % b.path, 'outer holds argument %d, inner argument %d' % (so[1], si[1]))
+            else:
+                rep.viol('R4.2', '%s|nested-partial-app-order' % b.path, 'the outer PartialAppLast holds supplied argument %d and the inner one argument %d: the outer argument is pushed first, so the two are passed to the builtin in swapped order' % (so[1], si[1]), b.loc(bb))
+    rep.floor('R4.2', 'nested PartialAppLast constructions', nn, 1)
     rep.rule('R4.3', 'call_or_part_apply: a non-function callee with exactly one function argument becomes PartialApp1(that function, callee)')
     cp = 'eval::call_or_part_apply'
     if F.has_fn(cp):
